@@ -103,6 +103,19 @@ def run_history(ctx, pcirc, extra, steps, replay):
     exc_p = {nm: complex(0.3 - 0.1 * k, 0.4) for k, nm in enumerate(pnames)}
     kept = []                       # (label, model, names, exc, value copy at return time)
     snap_c, snap_p = circuit_snapshot(child), circuit_snapshot(parent)
+
+    def pristine():
+        """what an identically built circuit answers when asked for its defaults: must not depend on any solve made before"""
+        out = {}
+        for which in ("child", "parent"):
+            try:
+                fc, fp, _ = build(pcirc, extra, [])
+                tgt, nms, ex = (fc, cnames, exc_c) if which == "child" else (fp, pnames, exc_p)
+                out[which] = (grab(tgt.solve(), nms, ex), sorted((k, repr(v)) for k, v in tgt.default_params.items()))
+            except Exception as e:  # noqa
+                out[which] = "raised:" + impl.outcome_class(e)
+        return out
+    first_build = pristine()
     done = []
     for step in steps:
         kind = step[0]
@@ -180,6 +193,21 @@ def run_history(ctx, pcirc, extra, steps, replay):
             if repr(sorted(mod0.solved_params.items(), key=lambda t: t[0])) != repr(sorted(val0["params"].items(), key=lambda t: t[0])):
                 ctx.violation("C06:result-mutated", "solved_params of an earlier result changed", rep)
                 return False
+    # the process is as it was: the same construction code gives the same circuit and the same answer as before the history
+    last_build = pristine()
+    for which in ("child", "parent"):
+        a, b = first_build[which], last_build[which]
+        if isinstance(a, str) or isinstance(b, str):
+            if a != b:
+                ctx.violation("C06:leaves-trace", f"building and solving the same {which} circuit {a if isinstance(a, str) else 'worked'} before the history and "
+                              f"{b if isinstance(b, str) else 'worked'} after it", dict(replay, executed=[list(map(str, s)) for s in done]))
+                return False
+            continue
+        ok, why = same(a[0], b[0])
+        if not ok or a[1] != b[1]:
+            ctx.violation("C06:leaves-trace", f"an identically built {which} circuit solved at its defaults differs after the history in: "
+                          f"{why if not ok else 'default_params'} (solves leave a trace outside the solver)", dict(replay, executed=[list(map(str, s)) for s in done]))
+            return False
     return True
 
 
